@@ -569,6 +569,7 @@ def directed(w):
         ('generated-label-collision', f'ns _ {{\nwflip_area_start_0:\n;_.wflip_area_start_0\n}}\n;_.wflip_area_start_0\nsegment {16 * w}\n;\n'),
         ('negative-reserve', f';s\nsegment {64 * w}\ns: ;\n;\nreserve 0-{4 * w}\nx: ;x\nreserve {8 * w}\n' if w > 8 else
          f';s\nsegment {8 * w}\ns: ;\n;\nreserve 0-{4 * w}\nx: ;x\nreserve {8 * w}\n'),
+        ('writer-word-range', f';0\nsegment {(1 << w) - 4 * w}\nwflip 0, 3, 0\nreserve {2 * w}\n'),
         ('unaligned-target', f';a\na: wflip t+3, 0x1f, a\nt: ;0\n;0\n'),
     ]
 
